@@ -47,8 +47,29 @@ theorem parse_materialize_snapshot (diffFn : DiffFn) (n len : Nat) (hs : List (L
     hwf.hunks hwf.has_conflict
   intro h hh hne ci nc
   obtain ⟨hodd, hc⟩ := conflict_of_wf hwf.hunks h hh hne
-  exact ⟨fun hall => snapshot_renders_eol diffFn len hwf.len_pos eol he labels hl h hodd hc hall ci nc,
-    fun hall => snapshot_renders_noeol diffFn len hwf.len_pos eol he labels hl h hodd hc hall ci nc⟩
+  exact ⟨fun hall => nodiff_renders_eol diffFn .snapshot rfl len hwf.len_pos eol he labels hl h
+      (by simp) hodd hc hall ci nc,
+    fun hall => nodiff_renders_noeol diffFn .snapshot rfl len hwf.len_pos eol he labels hl h
+      (by simp) hodd hc hall ci nc⟩
+
+/-- **(b) Git style.** Same statement for `ConflictMarkerStyle::Git`: 3-term hunks are written
+with `<<<<<<<`/`|||||||`/`=======`/`>>>>>>>` and parsed by `parse_git_style_conflict_hunk`,
+hunks of any other arity fall back to the jj-style snapshot writer. -/
+theorem parse_materialize_git (diffFn : DiffFn) (n len : Nat) (hs : List (List Bytes))
+    (labels : List Bytes) (eol : Bytes) (hwf : HunksWF n len hs) (hl : LabelsOK labels)
+    (he : IsEol eol) :
+    parseConflict (materializeHunks diffFn hs .git len labels eol) n len = some hs := by
+  refine parse_materialize_of_render diffFn .git n len hwf.len_pos labels eol he hs ?_
+    hwf.hunks hwf.has_conflict
+  intro h hh hne ci nc
+  obtain ⟨hodd, hc⟩ := conflict_of_wf hwf.hunks h hh hne
+  by_cases h3 : h.length = 3
+  · exact ⟨fun hall => git_renders_eol3 diffFn len hwf.len_pos eol he labels hl h h3 hc hall ci nc,
+      fun hall => git_renders_noeol3 diffFn len hwf.len_pos eol he labels hl h h3 hc hall ci nc⟩
+  · exact ⟨fun hall => nodiff_renders_eol diffFn .git rfl len hwf.len_pos eol he labels hl h
+        (fun _ => h3) hodd hc hall ci nc,
+      fun hall => nodiff_renders_noeol diffFn .git rfl len hwf.len_pos eol he labels hl h
+        (fun _ => h3) hodd hc hall ci nc⟩
 
 /-- non-vacuity: a 2-sided conflict between resolved context, the last side lacking the final EOL,
 with a short marker look-alike in the content -/
